@@ -3,6 +3,7 @@ C15: definitions used in the statements of Props/C15.lean (hypotheses, and the c
 non-vacuity examples).
 -/
 import PartituraModel.Proofs.C15Sound
+import PartituraModel.Proofs.C15Distinct
 
 namespace C15
 open Model.Merge
